@@ -123,29 +123,38 @@ func subStreamSequences() mon.Sub {
 // decoders: the decoding must not depend on which one it is.
 var srcKinds = []string{"chunker", "bufio16", "bufio19", "bufio64", "bufio4096", "bufio-over-bufio", "bytes.Reader", "bytes.Buffer", "readerOnly", "bufio16-used"}
 
-func mkSource(kind string, stream []byte, plan xport.Plan) (io.Reader, int) {
+// mkSource returns the source and a function that re-uses every piece of
+// memory the source owned for something else (what an application does with a
+// buffer once it has read its frames).
+func mkSource(kind string, stream []byte, plan xport.Plan) (io.Reader, func()) {
+	stream = append([]byte(nil), stream...)
+	junk := bytes.Repeat([]byte{0xEE}, len(stream)+64)
+	scribble := func() { copy(stream, junk) }
 	switch kind {
 	case "bufio16", "bufio19", "bufio64", "bufio4096":
 		var sz int
 		fmt.Sscanf(kind, "bufio%d", &sz)
-		return bufio.NewReaderSize(xport.NewChunker(stream, plan), sz), 0
+		br := bufio.NewReaderSize(xport.NewChunker(stream, plan), sz)
+		return br, func() { scribble(); br.Reset(bytes.NewReader(junk)); br.Peek(sz) }
 	case "bufio-over-bufio":
-		return bufio.NewReaderSize(bufio.NewReaderSize(xport.NewChunker(stream, plan), 64), 16), 0
+		br := bufio.NewReaderSize(bufio.NewReaderSize(xport.NewChunker(stream, plan), 64), 16)
+		return br, func() { scribble(); br.Reset(bytes.NewReader(junk)); br.Peek(16) }
 	case "bytes.Reader":
-		return bytes.NewReader(stream), 0
+		return bytes.NewReader(stream), scribble
 	case "bytes.Buffer":
-		return bytes.NewBuffer(append([]byte(nil), stream...)), 0
+		b := bytes.NewBuffer(stream)
+		return b, func() { b.Reset(); b.Write(junk[:len(stream)]); scribble() }
 	case "readerOnly":
-		return readerOnly{xport.NewChunker(stream, plan)}, 0
+		return readerOnly{xport.NewChunker(stream, plan)}, scribble
 	case "bufio16-used":
 		// a buffered reader that already served some bytes of the connection (a
 		// handshake, say): its buffer is part-consumed when the first header comes
 		pre := []byte("HTTP/1.1 101\r\n\r\n")[:11]
 		br := bufio.NewReaderSize(xport.NewChunker(append(append([]byte(nil), pre...), stream...), plan), 16)
 		io.ReadFull(br, make([]byte, len(pre)))
-		return br, len(pre)
+		return br, func() { scribble(); br.Reset(bytes.NewReader(junk)); br.Peek(16) }
 	}
-	return xport.NewChunker(stream, plan), 0
+	return xport.NewChunker(stream, plan), scribble
 }
 
 // subSourceKinds: one byte stream (a sequence of frames, possibly cut short),
@@ -249,15 +258,17 @@ func subSourceKinds() mon.Sub {
 					return
 				}
 				// (2) ReadFrame
-				src, _ = mkSource(kind, stream, plan)
+				src, reuse := mkSource(kind, stream, plan)
 				c.Count(1)
 				i = 0
+				var heldFrames []ws.Frame
 				for {
 					f, err := ws.ReadFrame(src)
 					if err != nil {
 						end = err
 						break
 					}
+					heldFrames = append(heldFrames, f)
 					if i >= complete || wsx.FromWS(f.Header) != hs[i] || !bytes.Equal(f.Payload, wire[i]) {
 						c.Fail("source-kinds/readframe/frame", fmt.Sprintf("ws.ReadFrame on a %s source decoded frame %d as %s with %d payload bytes", kind, i, wsx.FromWS(f.Header), len(f.Payload)), det(kind))
 						return
@@ -267,6 +278,14 @@ func subSourceKinds() mon.Sub {
 				if i != complete || end != wantEnd {
 					c.Fail("source-kinds/readframe/end", fmt.Sprintf("ws.ReadFrame on a %s source decoded %d frames and ended with %v; want %d and %v", kind, i, end, complete, wantEnd), det(kind))
 					return
+				}
+				// the frames read belong to the caller: they still hold their bytes when the source's memory is used for something else
+				reuse()
+				for k, f := range heldFrames {
+					if !bytes.Equal(f.Payload, wire[k]) {
+						c.Fail("source-kinds/readframe/held-payload", fmt.Sprintf("the payload of frame %d returned by ws.ReadFrame changed when the %s source it was read from was reused", k, kind), det(kind))
+						return
+					}
 				}
 				// (3) the streaming Reader (parser only)
 				src, _ = mkSource(kind, stream, plan)
